@@ -21,6 +21,7 @@ ASSUMPTIONS = [
 ]
 
 DEPTH = {"quick": 3, "thorough": 4}
+WARM_DEPTH = {"quick": 2, "thorough": 3}      # histories starting from the state in which all probes were evaluated
 _fresh_memo = {}
 
 
@@ -38,8 +39,8 @@ def fresh_probes(rootname, edits):
     return r
 
 
-def run_history(rootname, hist):
-    w = World(rootname)
+def run_history(rootname, hist, warm=False):
+    w = World(rootname, warm=warm)
     obs = [w.apply(op, track_ref=False) for op in hist]
     canon = canon_world(w)
     live = w.probe_all()
@@ -48,7 +49,7 @@ def run_history(rootname, hist):
     viols = []
     if live != fresh:
         bad = [i for i, (a, b) in enumerate(zip(live, fresh)) if a != b]
-        viols.append({"clause": "live==fresh", "case": {"root": rootname, "history": hist},
+        viols.append({"clause": "live==fresh", "case": {"root": rootname, "history": hist, "warm": warm},
                       "observed": {"probe": ROOTS[rootname]["probes"][bad[0]], "live": live[bad[0]]},
                       "expected": {"fresh": fresh[bad[0]]}})
     info = {"nevals": sum(1 for op in hist if not O.is_edit(op))}
@@ -69,14 +70,18 @@ def work_items(tier, seed):
     items = []
     for name, r in ROOTS.items():
         for op in r["edits"] + r["evals"]:
-            items.append({"root": name, "first": op})
+            items.append({"root": name, "first": op, "warm": False})
+        for op in r["edits"]:
+            items.append({"root": name, "first": op, "warm": True})
     return items
 
 
 def run_item(item, tier):
     name = item["root"]
-    res = bfs.explore(lambda h: run_history(name, h), enabled_for(name), DEPTH[tier], prefix=[item["first"]])
-    res.samples = [{"root": name, "history": h} for h in res.samples]
+    warm = item.get("warm", False)
+    res = bfs.explore(lambda h: run_history(name, h, warm), enabled_for(name),
+                      WARM_DEPTH[tier] if warm else DEPTH[tier], prefix=[item["first"]])
+    res.samples = [{"root": name, "history": h, "warm": warm} for h in res.samples]
     out = res.as_item_result()
     out["counts"]["alphabet_max"] = 0
     return out
@@ -84,18 +89,23 @@ def run_item(item, tier):
 
 def check_case(case):
     _fresh_memo.clear()
-    return run_history(case["root"], case["history"])[1]
+    return run_history(case["root"], case["history"], case.get("warm", False))[1]
 
 
 def shrink_candidates(case):
     h = case["history"]
     for i in range(len(h)):
-        yield {"root": case["root"], "history": h[:i] + h[i + 1:]}
+        yield dict(case, history=h[:i] + h[i + 1:])
+    if case.get("warm"):
+        yield dict(case, warm=False)
 
 
 def script(case):
     r = ROOTS[case["root"]]
-    lines = [O.history_script(r["spec"], case["history"]), "# probes on the live model:"]
+    pre = O.spec_to_python(r["spec"])
+    if case.get("warm"):
+        pre += "\n" + "\n".join(O.op_to_python(p) for p in r["probes"])
+    lines = [pre, "\n".join(O.op_to_python(o) for o in case["history"]), "# probes on the live model:"]
     lines += [O.op_to_python(p) for p in r["probes"]]
     lines.append("# expected: the values printed by the same probes on a fresh model to which only the "
                  "non-print (edit) lines above were applied")
